@@ -315,6 +315,7 @@ def run_real(c):
         ui, di = float(u10[i]), float(dr[i])
         if math.isfinite(ui) and ui > 0 and math.isfinite(di):
             Ft = [Fval(ui - 0.01, di, [-1.0]), Fval(ui, di, [-1.0]), Fval(ui + 0.01, di, [-1.0])]
+            pt["F_wide"] = hxl([Fval(ui - 0.02, di, [-1.0]), Fval(ui + 0.02, di, [-1.0])])
             if any(v != v for v in Ft):
                 # the roughness solver does not start from its default guess here: warm its memory like the
                 # inversion does (walk down from higher winds)
